@@ -202,7 +202,7 @@ def run(ctx):
     rnd = random.Random(ctx.seed * 1000003 + 4)
     ctx.rule = ("random final/parent masses, nominal resonance masses from just above the daughters' threshold to 0.15 beyond the kinematic limit (signed q0^2), 1-3 interfering resonances on distinct pairings with J in 0..4, random masses/widths/polar couplings; events from the "
                 "library's phase-space generator; per (config, chain, event) three certified layers K/A/D; distinct = distinct (config,chain,event); quick 6 configs x 3 events incl. "
-                "every J once, thorough 40 configs x 5 events")
+                "every J once, thorough 40 configs x 5 events; plus 2 (4) configs evaluated AFTER a model with the same particle names and another parent spin in the same process")
     common.theorem_stage(ctx)
     cases = []
     vcases = []
@@ -215,6 +215,21 @@ def run(ctx):
         cfg = run_config(ctx, rnd, "g%d" % n, M0, mf, res, 3 if quick else 5, cases, vcases=(vcases if (n < 5 or not quick and n % 4 == 0) else None))
         if n == 0:
             ctx.sample({"config": cfg})
+    # history: models with the SAME particle names and other spins were evaluated earlier in this process (decays compare equal
+    # by name, so anything cached through them would leak: the LS-helicity matrix did before /repo a1f549d).  The same (l, s)
+    # list with another parent spin is the critical pattern: A(1-) -> R(1-) D and A(0-) -> R(1-) D both have ls = ((1,1),).
+    from tf_pwa.config_loader import ConfigLoader
+    for hn, (Jres, ptop) in enumerate([(1, (1, -1)), (2, (1, 1))] if quick else [(1, (1, -1)), (2, (1, 1)), (1, (2, -1)), (3, (1, -1))]):
+        M0, mf, res = build(rnd, [Jres], 1, False)
+        try:
+            c0 = ConfigLoader(ampkit.three_body_config(M0, mf, res, top=ptop))
+            a0 = c0.get_amplitude()
+            a0(c0.data.cal_angle(ampkit.gen_events(M0, mf, 2, rnd.randrange(10 ** 6))))  # evaluate the other-spin model first
+            ctx.count("history:other_parent_spin_first")
+        except Exception as e:  # the alternative spin assignment may have no allowed coupling: no history then
+            ctx.count("history:alternative_not_loadable")
+            ctx.notes.append("history model J_A=%s not loadable: %r" % (ptop, e))
+        run_config(ctx, rnd, "h%d" % hn, M0, mf, res, 2, cases, vcases=vcases)
     for c in cases[:: max(1, len(cases) // 4)]:
         ctx.sample({"case": c[0], "goal": c[1][:500]})
     res = common.coq_cases(ctx, "c04", HEADER, [c[:3] for c in cases], per_file=6, case_timeout=60)
